@@ -1402,7 +1402,7 @@ func main() {
 		return
 	}
 	g := &gen{d: d, rng: hx.NewRng(a.Seed)}
-	for run.NOps < a.N {
+	for run.NOps < a.N && !run.Enough() {
 		g.episode()
 	}
 }
